@@ -287,6 +287,13 @@ Definition ep_dump_di (v : pyval) : pyval :=
   | _ => bad_input
   end.
 
+Definition ep_load_di (v : pyval) : pyval :=
+  match v with
+  | PStr text => out_result (fun d => PList [di_timestamp d; di_description d; di_arch d; di_disc_numbers d;
+                                             out_result PStr (dump_di d)]) (load_di text)
+  | _ => bad_input
+  end.
+
 From PM Require Import Model.TreeInfo00.
 Definition ep_release_00 (v : pyval) : pyval :=
   match v with
@@ -312,7 +319,7 @@ Definition ep_print_ini (v : pyval) : pyval :=
   match get_ini v with Some t => PStr (print_ini t) | None => bad_input end.
 
 Definition entries_ti : list (str * (pyval -> pyval)) :=
-  [ (lit "dump_ti", ep_dump_ti); (lit "load_ti", ep_load_ti); (lit "dump_di", ep_dump_di); (lit "print_ini", ep_print_ini);
+  [ (lit "dump_ti", ep_dump_ti); (lit "load_ti", ep_load_ti); (lit "dump_di", ep_dump_di); (lit "load_di", ep_load_di); (lit "print_ini", ep_print_ini);
     (lit "release_00", ep_release_00);
     (lit "paths_00", ep_paths_00) ].
 
